@@ -191,7 +191,11 @@ def structured_edits(s, rng):
         out += [sp(a=A + [(i, [(k, v)])]), sp(a=A + [(i, [(k, v + 1)])]), sp(a=[(i, ps + [(k, v)])] + [x for x in A if x[0] != i]),
                 sp(a=A + [(n + 1, [("mass", 5)])]), sp(a=[(i, ps[::-1])] + [x for x in A if x[0] != i]), sp(a=A[::-1]),
                 sp(a=A + [(i, [("rad" if k == "mass" else "mass", 3)])]) if len(ps) == 1 else sp(a=A)]
-    else:
+    if n >= 1:
+        # values the grammar allows whatever the element: a mass below the atomic number on the heaviest atom, mass 1, large values
+        out += [sp(a=[x for x in A if x[0] != n] + [(n, [("mass", 1)])]), sp(a=[x for x in A if x[0] != 1] + [(1, [("mass", 1)])] + [x for x in A if False]),
+                sp(a=[x for x in A if x[0] != n] + [(n, [("mass", 999), ("rad", 9)])])]
+    if not A:
         out += [s + "/", s + "/(1:mass=2)", s + "/(1:mass=2,mass=2)", s + "/(1:mass=2)(1:mass=2)", s + "/(1:mass=2,rad=1)(1:rad=1)", s + f"/({n + 1}:rad=1)",
                 s + "/(1:mass=0)", s + "/(1:mass=02)", s + "/(1:chg=1)"]
     # formula: Hill order violations, count 1, leading zero
@@ -255,12 +259,15 @@ def c10(out, tier, rng):
     for name, s in library_strings(rng, tier):
         more += structured_edits(s, rng)
     # boundary strings: prefix-sharing symbols, Hill order with and without carbon, counts, empty parts
-    more += ["/", "//", "C/", "H/", "CH/", "HC/", "CHCl/", "CClH/", "ClH/", "HCl/", "C2/(1-2)", "C1/", "C01/", "C10/", "C2H/(1-2)(1-3)", "Cl2/(1-2)", "CCl/(1-2)",
+    more += ["/(1-2)", "//(1:mass=2)", "/(10-11)/(12:rad=2)", "/(1-1)", "Xe//(1:mass=53)", "Og2/(1-2)/(2:mass=100)", "CHCl3/(1-2)(2-3)(2-4)(2-5)/(1:mass=2)",
+             "ClH/(1-2)/(1:mass=2)", "C2H2/(1-3)(2-4)(3-4)/(1:mass=3)", "/", "//", "C/", "H/", "CH/", "HC/", "CHCl/", "CClH/", "ClH/", "HCl/", "C2/(1-2)", "C1/", "C01/", "C10/", "C2H/(1-2)(1-3)", "Cl2/(1-2)", "CCl/(1-2)",
              "CnCo/(1-2)", "CoCn/", "CCn/", "CnC/", "HHe/", "HeH/", "HeHf/", "NNa/", "NaN/", "NaNb/", "NbNa/", "H2/(1-2)(2-1)", "H2/(1-2)(1-2)", "H2/(2-1)",
              "H2/(1-3)", "H2/(1-1)", "H/(1-1)", "H2//(1:mass=2,rad=1)", "H2//(1:rad=1,mass=2)", "H2//(1:mass=2)(1:rad=1)", "H2//(1:mass=2)(2:mass=2)",
              "H2//(3:mass=2)", "H2//(1:mass=2,mass=3)", "H2//(1:mass=2)(1:mass=2)", "Xe//(1:mass=129,mass=129)", "CH4/(1-5)(2-5)(3-6)(4-5)", "CH2/(1-4)(2-3)",
              "C2H6O/(1-7)(2-7)(3-7)(4-8)(5-8)(6-9)(7-8)(8-9)", "C999/", "H2O", "", "C", "/C", "C/(1-2", "C2/(1 - 2)", "C2/(1-2) ", "C2/(1-2)/"]
     ss += parse_sessions(sorted(set(more)), "lib", rng, per=40, history=True)
+    # numbers longer than the interpreter's integer / string conversion limit (4300 digits): still strings over the token alphabet
+    ss += parse_sessions(["C2/(1-" + "9" * 4401 + ")", "C2/(1-2)/(1:mass=" + "7" * 4401 + ")", "C2/(" + "1" * 4400 + "-2)"], "huge-numbers", rng, per=10)
     for s in ss:
         for e in s.ev:
             if e["op"] == "parse":
